@@ -144,3 +144,56 @@ Section IterProofs.
       + cbn [fold_left]. exact Hnth.
   Qed.
 End IterProofs.
+
+(* ---- Iter::fold_n with accumulators updated component-wise ---- *)
+Section FoldN.
+  Context {E : Type}.
+  Variable pad : E.
+  Variable lanes : nat.
+
+  Lemma map_snd_combine {A B} (l : list A) (m : list B) : length l = length m -> map snd (combine l m) = m.
+  Proof.
+    revert m. induction l as [|a l IH]; intros [|b m] H; cbn [length] in H; try discriminate; [reflexivity|].
+    cbn [combine map snd]. rewrite IH by lia. reflexivity.
+  Qed.
+
+  Lemma combine_map_r {A B C} (h : A * B -> C) (l : list A) (m : list B) :
+    combine l (map h (combine l m)) = map (fun p => (fst p, h p)) (combine l m).
+  Proof.
+    revert m. induction l as [|a l IH]; intros [|b m]; cbn [combine map]; try reflexivity.
+    rewrite IH. reflexivity.
+  Qed.
+
+  Lemma combine_map_map {A B C} (f : A -> B) (g : A -> C) (l : list A) :
+    combine (map f l) (map g l) = map (fun a => (f a, g a)) l.
+  Proof. induction l as [|a l IH]; cbn [map combine]; [reflexivity|]. rewrite IH. reflexivity. Qed.
+
+  Notation vfun := (list E -> list E -> list E).
+
+  Lemma cwv_length (fs : list vfun) accs x : length (cwv fs accs x) = length (combine fs accs).
+  Proof. unfold cwv. apply map_length. Qed.
+
+  Lemma cwv_fold cs (fs : list vfun) accs :
+    length fs = length accs ->
+    fold_left (cwv fs) cs accs = map (fun p : vfun * list E => fold_left (fst p) cs (snd p)) (combine fs accs).
+  Proof.
+    revert accs. induction cs as [|c cs IH]; intros accs Hl; cbn [fold_left].
+    - symmetry. apply (map_snd_combine fs accs Hl).
+    - rewrite IH by (rewrite cwv_length, combine_length; lia).
+      unfold cwv. rewrite combine_map_r, map_map. reflexivity.
+  Qed.
+
+  (* fold_n = one masked fold per accumulator: the padding lanes of the tail never enter ANY accumulator,
+     whatever the combining functions are (sum, min, max, ...) *)
+  Theorem iter_fold_n_componentwise (fs : list vfun) accs (xs : list E) :
+    length fs = length accs ->
+    iter_fold_n pad lanes (cwv fs) accs xs
+    = map (fun p : vfun * list E => iter_fold pad lanes (fst p) (snd p) xs) (combine fs accs).
+  Proof.
+    intros Hl. unfold iter_fold_n, iter_fold. destruct (iter_chunks lanes xs) as [cs r].
+    rewrite (cwv_fold cs fs accs Hl).
+    destruct (iter_tail pad lanes r) as [[t m]|]; [|reflexivity].
+    unfold cwv. rewrite combine_map_r, map_map. cbn [fst snd].
+    rewrite combine_map_map, map_map. reflexivity.
+  Qed.
+End FoldN.
